@@ -290,6 +290,67 @@ func checkHeight(run *ev.Run, bc *core.Blockchain, h uint32, obs *vchain.Observa
 				return &viol{"findstates-arbitrary-start", fmt.Sprintf("height %d id %d start %x max %d: got %x want %x (err %v)", h, id, st, max, gotS, exp, err)}
 			}
 		}
+		// structured prefixes and starts: the prefix ends anywhere inside a key
+		// (so inside or at the end of an extension node of the trie) and the
+		// start is derived from the part all keys below it share - exactly it,
+		// one byte less or more, or one of the keys itself
+		for n := 0; n < 4 && len(kvs) > 0; n++ {
+			k := kvs[r.Intn(len(kvs))].K
+			j := r.Intn(len(k) + 1)
+			sub := k[:j]
+			var sfx [][]byte
+			for _, kv := range kvs {
+				if bytes.HasPrefix(kv.K, sub) {
+					sfx = append(sfx, kv.K[j:])
+				}
+			}
+			lc := bytes.Clone(sfx[0])
+			for _, x := range sfx[1:] {
+				m := 0
+				for m < len(lc) && m < len(x) && lc[m] == x[m] {
+					m++
+				}
+				lc = lc[:m]
+			}
+			var st []byte
+			switch r.Intn(5) {
+			case 0, 1:
+				st = lc
+			case 2:
+				if len(lc) > 0 {
+					st = lc[:len(lc)-1]
+				}
+			case 3:
+				st = append(bytes.Clone(lc), byte(r.Intn(256)))
+			default:
+				st = sfx[r.Intn(len(sfx))]
+			}
+			if len(st) == 0 || len(sub)+len(st) > 64 {
+				continue
+			}
+			max := 1 + r.Intn(5)
+			var exp []string
+			for _, x := range sfx {
+				if bytes.Compare(x, st) > 0 && len(exp) < max {
+					exp = append(exp, string(x))
+				}
+			}
+			spfx := append(bytes.Clone(pfx), sub...)
+			res, err := sm.FindStates(sr.Root, spfx, st, max)
+			var gotS []string
+			if err == nil {
+				for _, kv := range res {
+					gotS = append(gotS, string(kv.Key[len(spfx):]))
+				}
+			}
+			run.Obs("findstates_structured_starts", 1)
+			if bytes.Equal(st, lc) {
+				run.Obs("findstates_start_equal_to_shared_part_below_prefix", 1)
+			}
+			if fmt.Sprintf("%x", gotS) != fmt.Sprintf("%x", exp) {
+				return &viol{"findstates-structured-start", fmt.Sprintf("height %d id %d prefix %x start %x (shared part %x) max %d: got %x want %x (err %v)", h, id, sub, st, lc, max, gotS, exp, err)}
+			}
+		}
 		if len(gotk) != len(kvs) {
 			return &viol{"findstates-paging-count", fmt.Sprintf("height %d id %d page %d: %d vs %d", h, id, page, len(gotk), len(kvs))}
 		}
